@@ -74,6 +74,13 @@ Definition drops_ok (tr : list ev) : Prop :=
   forall pre id post, tr = pre ++ EDrop id :: post ->
     exists p k, pre = p ++ [EResp id k] /\ ~ open_in p id.
 
+(* a response for an open id completes it at once: the very next event is the callback of the
+   request that is open under that id, with the class of the response's kind *)
+Definition resp_completes (tr : list ev) : Prop :=
+  forall pre id k rest, tr = pre ++ EResp id k :: rest -> open_in pre id ->
+    exists (t n : Z) (post : list ev), rest = ECb t (cls_of k) :: post /\
+      In (EIssue t id n) pre /\ count_cb t pre = 0%nat.
+
 (* the wait is registered before the request is handed to the transport *)
 Definition sent_after_issue (tr : list ev) : Prop :=
   forall pre id t post, tr = pre ++ ESent id t :: post -> id <> 0 ->
